@@ -438,6 +438,34 @@ Spans of submodels differ:
 
             return check_values
 
+        # Optionally copy initial values from another period, in the linker
+        # and the selected submodels (as in `BaseModel.solve_t()`)
+        if offset:
+            for name in submodels:
+                if name not in self.__dict__['submodels']:
+                    raise KeyError(f"'{name}' not found in list of submodels")
+
+            t_check = t
+            if t_check < 0:
+                t_check += len(self.span)
+
+            # Error if `offset` points outside the current span
+            if t_check + offset < 0 or t_check + offset >= len(self.span):
+                raise IndexError(
+                    f'`offset` argument ({offset}) for position `t` ({t}) '
+                    f'implies a period outside the span of the current linker instance: '
+                    f'{offset} + {t} -> position {offset + t_check} '
+                    f'not in 0..{len(self.span) - 1}'
+                )
+
+            for name in self.endogenous:
+                self.__dict__['_' + name][t] = self.__dict__['_' + name][t + offset]
+
+            for name in submodels:
+                submodel = self.__dict__['submodels'][name]
+                for variable in submodel.endogenous:
+                    submodel[variable][t] = submodel[variable][t + offset]
+
         status = SolutionStatus.UNSOLVED.value
         current_values = get_check_values()
 
